@@ -89,13 +89,14 @@ type PkgContracts struct {
 	ByKey   map[string]*FuncSpec
 	Imports []string // extra import lines
 	Ghosts  []string // ghost package-level variables: "name type"
+	Decls   []string // raw specification-only Go declarations (types)
 	Raw     string
 }
 
 var clauseKeywords = map[string]bool{
 	"func": true, "trusted": true, "pure": true, "inline": true, "ignore": true, "spec": true, "lemma": true, "import": true,
 	"requires": true, "ensures": true, "modifies": true, "loop": true, "arith": true, "overflow": true, "allow_panic": true,
-	"theory": true, "untrusted_input": true, "pragma": true, "assert": true, "note": true, "tparams": true, "ghost": true,
+	"theory": true, "untrusted_input": true, "pragma": true, "assert": true, "note": true, "tparams": true, "ghost": true, "decl": true,
 }
 
 type rawClause struct {
@@ -290,6 +291,10 @@ func loadContracts(dir, pkgPath string) (*PkgContracts, error) {
 		case "import":
 			pc.Imports = append(pc.Imports, c.text)
 			continue
+		case "decl":
+			pc.Decls = append(pc.Decls, strings.TrimSpace(c.text))
+			cur = nil
+			continue
 		case "ghost":
 			pc.Ghosts = append(pc.Ghosts, strings.TrimSpace(strings.TrimPrefix(strings.TrimSpace(c.text), "var ")))
 			cur = nil
@@ -450,6 +455,9 @@ func __seen[K comparable](k K) bool     { return true }
 `)
 	for _, g := range pc.Ghosts {
 		fmt.Fprintf(&b, "var %s\n", g)
+	}
+	for _, d := range pc.Decls {
+		fmt.Fprintf(&b, "%s\n", d)
 	}
 	emit := func(name, tparams string, params []Param, ret string, c *Clause) error {
 		expr, err := rewriteSpec(c.Text)
